@@ -39,6 +39,14 @@ theorem new_error_iff (bits : Nat) (o : Order) (data : List Nat) (size : Sz) (e 
     simp only [hb, ↓reduceIte, Except.error.injEq, ne_eq, h, not_false_eq_true, true_and]
     exact eq_comm
 
+/-- What `new` establishes, with the range facts, is `WF`. -/
+theorem wf_of_new {bits : Nat} {o : Order} {data : List Nat} {size : Sz} {im : ImageRaw}
+    (h : new bits o data size = .ok im) (hb : validBits bits = true)
+    (hw : size.w ≤ 2147483647) (hh : size.h ≤ 2147483647) (hf : Fits bits data) : im.WF := by
+  rw [new_ok_iff] at h
+  obtain ⟨hl, rfl⟩ := h
+  exact ⟨hb, hl, hw, hh, hf⟩
+
 theorem newConst_eq (bits : Nat) (o : Order) (data : List Nat) (size : Sz) :
     newConst bits o data size =
       if data.length = bytesPerRow size.w bits * size.h then some ⟨bits, o, data, size⟩ else none := by
@@ -99,6 +107,21 @@ theorem asI32_of_le {n : Nat} (h : n ≤ 2147483647) : asI32 n = n := by
   have : n % 4294967296 = n := Nat.mod_eq_of_lt (by omega)
   rw [this]
   have : n < 2147483648 := by omega
+  simp only [this, ↓reduceIte]
+
+/-- Beyond `i32::MAX` the cast wraps: a width of `2^31` becomes `i32::MIN`, so the test
+`p.x >= width as i32` holds for every `p` and `pixel` answers `None` everywhere. -/
+theorem pixel_none_of_width_wraps (im : ImageRaw) (h : im.size.w = 2147483648) (p : Pt) :
+    im.pixel p = none := by
+  unfold pixel asI32
+  rw [h]
+  have : p.x < 0 ∨ p.y < 0 ∨ p.x ≥ (if 2147483648 % 4294967296 < 2147483648
+      then (((2147483648 % 4294967296 : Nat)) : Int)
+      else ((2147483648 % 4294967296 : Nat) : Int) - 4294967296) ∨
+      p.y ≥ (if im.size.h % 4294967296 < 2147483648 then ((im.size.h % 4294967296 : Nat) : Int)
+        else ((im.size.h % 4294967296 : Nat) : Int) - 4294967296) := by
+    simp only [show ¬ (2147483648 % 4294967296 < 2147483648) from by omega, ↓reduceIte]
+    omega
   simp only [this, ↓reduceIte]
 
 theorem contains_boundingBox {im : ImageRaw} {p : Pt} :
